@@ -5,11 +5,14 @@ Decided (structure of the registry writers; not the behaviour over call historie
                            target of a loop over the (promoted) `value` argument, and the store sits
                            inside that loop (a loop target used after its loop = leaked variable);
   R16.2 refusal-before-write - inside one iteration, no registry store can precede the
-                           overwrite=False refusal;
-  R16.3 slot identity    - overwrite-in-place / refusal are decided by equality of dimension *sets*
-                           of the new and the existing variable, the in-place store goes to the
-                           index of that existing variable, and the append happens exactly when no
-                           slot was overwritten;
+                           overwrite=False refusal (CFG reachability, following only branches consistent with
+                           one value of the never-reassigned `overwrite`);
+  R16.3 registry table   - set_metrics interpreted abstractly on modelled registries for 56 (initial
+                           registry, batch of 1-3 variables, overwrite) cases: the registry afterwards - on
+                           returning *and* on refusing paths - equals the reference "one variable at a time, in
+                           order" (slot = existing entry with the same set of dimensions; occupied + overwrite
+                           -> replaced in place; occupied without -> refused, everything as it was; free ->
+                           appended).  Any spelling with this effect passes (no flag / guard shape is demanded);
   R16.4 who-may-write    - only Grid.__init__ and Grid.set_metrics store into `_metrics`;
   R16.5 constructor      - Grid.__init__ registers every entry of `metrics` through set_metrics, in
                            mapping order.
@@ -25,8 +28,8 @@ EXPLANATION = (
     "Static rules on Grid.set_metrics / Grid.__init__ / every function of the package: R16.1 reaching-definition "
     "check that each registry store is fed by the target of an enclosing loop over the `value` argument (leaked loop "
     "variable otherwise); R16.2 no registry store on a path to the overwrite=False refusal within one iteration; "
-    "R16.3 shape of the slot-identity test (set equality of .dims, in-place store at the enumerated index, append iff "
-    "nothing was overwritten); R16.4 who-may-write over all functions of the package; R16.5 constructor loop. "
+    "R16.3 abstract evaluation of set_metrics on modelled registries against the one-at-a-time reference (56 cases, "
+    "returning and refusing paths); R16.4 who-may-write over all functions of the package; R16.5 constructor loop. "
     "The behaviour over arbitrary call histories is not executed."
 )
 ASSUMPTIONS = [
@@ -179,7 +182,10 @@ def check(ctx):
             tests = [(st.test, k == "if-true") for k, st in fr if k in ("if-true", "if-false")]
             if any("overwrite" in {x.id for x in ast.walk(t) if isinstance(x, ast.Name)} for t, _ in tests):
                 raises.append((n, tests))
-    ctx.floor("R16.2", "overwrite=False refusal (raise guarded by `overwrite`)", len(raises), 1)
+    if not raises:
+        # no `raise` under a test of `overwrite` in this function (e.g. moved into a helper): the refusal behaviour itself,
+        # including what the registry holds when it happens, is decided by the registry table (R16.3)
+        ctx.ok("R16.2", "refusal site", "no raise guarded by `overwrite` inside set_metrics; refusal decided by the registry table")
     assigned = {n.id for n in own_nodes(fn) if isinstance(n, ast.Name) and isinstance(n.ctx, ast.Store)}
     for r, rtests in raises:
         rn = ff.node_of(r)
@@ -200,6 +206,14 @@ def check(ctx):
             if not _reaches(ff.cfg, wn, rn, avoid):
                 ctx.ok("R16.2", f"{norm(st, 80)} -> refusal", "store cannot precede the refusal within one iteration")
                 continue
+            if "overwrite" not in assigned:
+                # `overwrite` is never reassigned: follow only branches consistent with one value of it
+                from ..cfg import reaches_under
+
+                feasible = [v for v in (True, False) if reaches_under(ff.cfg, ff.cfg.entry, wn, set(), "overwrite", v) and reaches_under(ff.cfg, wn, rn, avoid, "overwrite", v)]
+                if not feasible:
+                    ctx.ok("R16.2", f"{norm(st, 80)} -> refusal", "no value of `overwrite` lets the store happen and the refusal follow it")
+                    continue
             wfr = context_of(fn, st) or []
             wtests = [(s.test, k == "if-true") for k, s in wfr if k in ("if-true", "if-false")]
             excl = False
@@ -214,117 +228,8 @@ def check(ctx):
             else:
                 ctx.report("R16.2", fi, norm(st, 120), "a registry store can happen before the overwrite=False refusal of the same variable, so a refused registration does not leave the registry as it was", st)
 
-    # ---------------- R16.2b an occupied slot is replaced only under overwrite=True and refused otherwise
-    def overwrite_polarity(t):
-        """+1 if test is true exactly when `overwrite` is truthy, -1 if when falsy, 0 unknown."""
-        if isinstance(t, ast.Name) and t.id == "overwrite":
-            return 1
-        if isinstance(t, ast.UnaryOp) and isinstance(t.op, ast.Not):
-            return -overwrite_polarity(t.operand)
-        if isinstance(t, ast.Compare) and len(t.ops) == 1 and isinstance(t.left, ast.Name) and t.left.id == "overwrite" and isinstance(t.comparators[0], ast.Constant):
-            c = t.comparators[0].value
-            if isinstance(t.ops[0], (ast.Is, ast.Eq)) and c in (True, False):
-                return 1 if c is True else -1
-            if isinstance(t.ops[0], (ast.IsNot, ast.NotEq)) and c in (True, False):
-                return -1 if c is True else 1
-        return 0
-
-    for n in own_nodes(fn):
-        if not (isinstance(n, (ast.Assign, ast.AugAssign)) and isinstance((n.targets[0] if isinstance(n, ast.Assign) else n.target), ast.Subscript)):
-            continue
-        tgt0 = n.targets[0] if isinstance(n, ast.Assign) else n.target
-        if not (isinstance(tgt0.value, ast.Subscript) and rooted_in_registry(tgt0.value, registry_aliases(fn))):
-            continue
-        fr = context_of(fn, n) or []
-        guard = None
-        for k, s_ in fr:
-            if k in ("if-true", "if-false"):
-                pol = overwrite_polarity(s_.test) * (1 if k == "if-true" else -1)
-                if pol == 1:
-                    guard = (k, s_)
-        if guard is None:
-            ctx.report("R16.2", fi, norm(n, 120) + " [unguarded]", "an occupied slot is replaced without `overwrite` being true", n)
-            continue
-        k, ifst = guard
-        other = ifst.orelse if k == "if-true" else ifst.body
-        if any(isinstance(s_, ast.Raise) for s_ in other):
-            ctx.ok("R16.2", norm(n, 80) + " [guard]", "replacement only under overwrite; the other arm raises")
-        else:
-            ctx.report("R16.2", fi, norm(n, 120) + " [no refusal]", "registering into an occupied slot without overwrite=True is not refused (the arm opposite to the replacement does not raise)", ifst)
-
-    # ---------------- R16.3 slot identity
-    inplace = [(n, s, k) for (n, s, k) in writes if k == "item-store" and isinstance((n.targets[0] if isinstance(n, ast.Assign) else n.target), ast.Subscript)
-               and isinstance((n.targets[0] if isinstance(n, ast.Assign) else n.target).value, ast.Subscript)]
-    appends = [(n, s, k) for (n, s, k) in writes if k == "call-append" and [v for v in s if not is_empty_literal(v)]]
-    if not inplace:
-        ctx.unknown("R16.3", "in-place replacement", "no store of the form registry[axes][index] = new found in set_metrics")
-    for node, stored, kind in inplace:
-        st = stmt_of(fn, node) or node
-        tgt = node.targets[0] if isinstance(node, ast.Assign) else node.target
-        tests = [(s.test, k == "if-true") for k, s in (context_of(fn, st) or []) if k in ("if-true", "if-false")]
-        dim_tests = [t for t, pol in tests if pol and _is_dimset_equality(t)]
-        if not dim_tests:
-            others = [t for t, pol in tests if ".dims" in norm(t)]
-            ctx.report("R16.3", fi, norm(st, 120), "the in-place replacement is not guarded by equality of the dimension *sets* of the new and the existing variable"
-                       + (f" (guard is `{norm(others[0], 80)}`)" if others else ""), st)
-            continue
-        t = dim_tests[0]
-        # the two sides: one derives from the stored value, the other from the loop target over the existing list
-        cn = ff.node_of(st)
-        sides = [t.left, t.comparators[0]]
-        side_roots = [origin_defs(ff, ff.node_of(_if_of(fn, t)), s) for s in sides]
-        new_roots = origin_defs(ff, cn, stored[0])
-        loops = enclosing_loops(fn, st)
-        inner = loops[-1] if loops else None
-        ok_new = any({(d.name, d.node) for d in r} & {(d.name, d.node) for d in new_roots} for r in side_roots)
-        ok_old = inner is not None and any(any(d.node == ff.node_of(inner) for d in r) for r in side_roots)
-        # index of the store must be bound by the same inner loop (enumerate over the existing list)
-        idx_roots = origin_defs(ff, cn, tgt.slice)
-        ok_idx = inner is not None and any(d.node == ff.node_of(inner) for d in idx_roots) and isinstance(inner, ast.For) and \
-            isinstance(inner.iter, ast.Call) and isinstance(inner.iter.func, ast.Name) and inner.iter.func.id == "enumerate" and \
-            rooted_in_registry(inner.iter.args[0], registry_aliases(fn))
-        if ok_new and ok_old and ok_idx:
-            ctx.ok("R16.3", norm(st, 100), f"guarded by `{norm(t, 80)}`, index from enumerate over the existing slot list")
-        else:
-            why = []
-            if not ok_new:
-                why.append("the dimension test does not look at the variable being stored")
-            if not ok_old:
-                why.append("the dimension test does not look at the existing entry of the enclosing loop")
-            if not ok_idx:
-                why.append("the index stored to is not the enumerate() index of the existing slot list")
-            ctx.report("R16.3", fi, norm(st, 120), "slot identity: " + "; ".join(why), st)
-    # append iff nothing overwritten: the append must be guarded by `not flag`, where flag is initialised False
-    # inside the loop over `value`, and set True exactly next to an in-place store
-    for node, stored, kind in appends:
-        st = stmt_of(fn, node) or node
-        loops = enclosing_loops(fn, st)
-        if not any(l in value_loops for l in loops):
-            continue  # reported by R16.1
-        # is there an in-place store within the same value-loop?  (the else-branch for fresh keys has none)
-        vloop = next(l for l in loops if l in value_loops)
-        same_loop_inplace = [n for (n, s, k) in inplace if vloop in enclosing_loops(fn, stmt_of(fn, n) or n)]
-        if not same_loop_inplace:
-            ctx.ok("R16.3", norm(st, 100), "append in a branch without replacement (fresh axis set)")
-            continue
-        tests = [(s.test, k == "if-true") for k, s in (context_of(fn, st) or []) if k in ("if-true", "if-false")]
-        flag = None
-        for t, pol in tests:
-            if isinstance(t, ast.UnaryOp) and isinstance(t.op, ast.Not) and isinstance(t.operand, ast.Name) and pol:
-                flag = t.operand.id
-            elif isinstance(t, ast.Name) and not pol:
-                flag = t.id
-        if flag is None:
-            ctx.report("R16.3", fi, norm(st, 120), "the append of a new variable is not conditional on `no existing slot was overwritten`: an overwritten slot would be registered twice", st)
-            continue
-        sets = [n for n in own_nodes(fn) if isinstance(n, ast.Assign) and len(n.targets) == 1 and isinstance(n.targets[0], ast.Name) and n.targets[0].id == flag]
-        init_false = [n for n in sets if isinstance(n.value, ast.Constant) and n.value.value is False and vloop in enclosing_loops(fn, n) and len(enclosing_loops(fn, n)) == len([l for l in loops])]
-        set_true = [n for n in sets if isinstance(n.value, ast.Constant) and n.value.value is True]
-        ok_true = bool(set_true) and all(any(_same_block(fn, n, ip) for ip in same_loop_inplace) for n in set_true)
-        if init_false and ok_true and len(init_false) + len(set_true) == len(sets):
-            ctx.ok("R16.3", norm(st, 100), f"append guarded by `not {flag}`; {flag} reset per variable and set beside the in-place store")
-        else:
-            ctx.report("R16.3", fi, norm(st, 120), f"the flag `{flag}` guarding the append is not (re)initialised to False for each variable of the list and set to True exactly where a slot is overwritten", st)
+    # ---------------- R16.3 registry table: set_metrics interpreted on modelled registries against the one-at-a-time reference
+    _registry_table(ctx, P, fi)
 
     # ---------------- R16.4 who may write
     allowed = {"grid:Grid.__init__", "grid:Grid.set_metrics"}
@@ -366,6 +271,102 @@ def check(ctx):
             ctx.report("R16.5", init, norm(st, 120), "the constructor does not pass every (axes, variables) entry of `metrics`, in mapping order, to set_metrics", st)
         if any(k.arg == "overwrite" for k in c.keywords) or len(c.args) > 2:
             ctx.report("R16.5", init, norm(st, 120) + " [overwrite]", "the constructor passes an overwrite flag: constructor entries must be registered like plain set_metrics calls", st)
+
+
+def _registry_table(ctx, P, fi):
+    """set_metrics evaluated abstractly for every (initial registry, batch, overwrite) of a small family; the final
+    registry (also on raising paths) must equal the reference: variables registered one at a time, in order - a slot is
+    the existing entry with the same *set* of dimensions; occupied + overwrite -> replaced in place, occupied without
+    overwrite -> refused with the slot (and everything registered before) as it was, free -> appended."""
+    import copy
+    import itertools
+
+    from ..absint import Evaluator, Obj, Sym, Unmodelled
+    from ..xmodel import dimsym, make_grid
+
+    AX, AY = Sym("AX"), Sym("AY")
+    xc, xg, yc, yg = dimsym("AX", "center"), dimsym("AX", "left"), dimsym("AY", "center"), dimsym("AY", "left")
+    # pool of metric variables of the axis set {AX, AY} at four positions, two candidates per position, dims in varying order
+    pool = {
+        "a_cc": (yc, xc), "b_cc": (xc, yc), "a_gc": (yc, xg), "b_gc": (xg, yc), "a_cg": (yg, xc), "a_gg": (yg, xg),
+        "dx_c": (xc,), "dx_g": (xg,),
+    }
+
+    def var(name, eff=()):
+        return Obj("DataArray", name, eff, {"dims": pool[name], "name": name, "__isinstance__": ("DataArray",)})
+
+    def ds_models():
+        def getitem(ev, recv, args, kw, node):
+            k = args[0]
+            k = k.name if isinstance(k, Sym) else k
+            if k not in pool:
+                from ..absint import Raised
+
+                raise Raised("KeyError", node)
+            return var(k)
+
+        def reset_coords(ev, recv, args, kw, node):
+            return recv.with_eff(("reset_coords", tuple(sorted(kw.items()))))
+
+        return {("Dataset", "__getitem__"): getitem, ("DataArray", "reset_coords"): reset_coords}
+
+    def reference(registry, key, batch, overwrite):
+        reg = {k: list(v) for k, v in registry.items()}
+        for name in batch:
+            lst = reg.setdefault(key, [])
+            hit = [i for i, old in enumerate(lst) if set(pool[old]) == set(pool[name])]
+            if hit:
+                if not overwrite:
+                    return reg, "raise"
+                for i in hit:
+                    lst[i] = name
+            else:
+                lst.append(name)
+        return reg, "return"
+
+    kxy, kx = frozenset({AX, AY}), frozenset({AX})
+    initials = {
+        "empty registry": {},
+        "one variable registered": {kxy: ["a_cc"]},
+        "two positions registered": {kxy: ["a_cc", "a_gc"]},
+        "another axis set registered": {kx: ["dx_c"]},
+    }
+    batches = [("b_cc",), ("a_gg",), ("a_cg", "a_gg"), ("b_cc", "a_gg"), ("a_gg", "b_cc"), ("b_gc", "b_cc", "a_gg"), ("a_gg", "a_cg", "b_gc")]
+    n = 0
+    problems = []
+    for (iname, init), batch, overwrite, as_kw in itertools.product(initials.items(), batches, (False, True), (False,)):
+        inst = f"{iname}, register {list(batch)}, overwrite={overwrite}"
+
+        def make():
+            ds = Obj("Dataset", "grid_ds", (), {"variables": list(pool), "data_vars": list(pool)})
+            g = make_grid(("AX", "AY"), ds=ds)
+            g.attrs["_metrics"] = {k: [var(v) for v in vs] for k, vs in init.items()}
+            val = list(batch) if len(batch) > 1 else batch[0]
+            return dict(self=g, key=(AX, AY), value=val, overwrite=overwrite)
+
+        ev = Evaluator(P, method_models=ds_models())
+        try:
+            outs = ev.run_paths(fi, make)
+        except Unmodelled as e:
+            ctx.unknown("R16.3", inst, str(e))
+            continue
+        want_reg, want_kind = reference(init, kxy, batch, overwrite)
+        n += 1
+        for o in outs:
+            g = o.env.get("self")
+            reg = g.attrs.get("_metrics") if isinstance(g, Obj) else None
+            got = {k: [getattr(v, "name", repr(v)) for v in vs] for k, vs in reg.items()} if isinstance(reg, dict) else reg
+            kind = "raise" if o.kind == "raise" else "return"
+            if kind != want_kind:
+                problems.append((inst, f"{'is refused (' + str(o.value) + ')' if kind == 'raise' else 'is accepted'}; registering one variable at a time, in order, {'is refused at the occupied slot' if want_kind == 'raise' else 'succeeds'}"))
+            elif got != want_reg:
+                show = lambda r: {tuple(sorted(x.name for x in k)): v for k, v in r.items()} if isinstance(r, dict) else r
+                problems.append((inst, f"registry afterwards is {show(got)}; registering one variable at a time, in order, gives {show(want_reg)}"))
+    for inst, msg in problems[:6]:
+        ctx.report("R16.3", fi, inst, msg)
+    if not problems:
+        ctx.ok("R16.3", f"registry table: {n} (initial registry, batch, overwrite) cases", "final registry = one-at-a-time reference on returning and refusing paths")
+    ctx.floor("R16.3", "registry table cases", n, 40)
 
 
 def _reaches(cfg, a, b, avoid):
@@ -410,13 +411,14 @@ def _same_block(fn, a, b) -> bool:
                 return True
     return False
 
-TECHNIQUE = "reaching definitions + CFG reachability + who-may-write scan (ast)"
+TECHNIQUE = "reaching definitions + CFG reachability + who-may-write scan (ast) + abstract evaluation of set_metrics on modelled registries"
 LEVEL_TEXT = (
     "Static analysis of the registry writers on the current source: (R16.1) every value set_metrics stores into the registry is fed, by reaching "
     "definitions, from the target of an enclosing loop over the `value` argument - a loop target used after its loop (the defect that registered only "
-    "the last variable of a list) is reported; (R16.2) no store can precede the overwrite=False refusal within one iteration, an occupied slot is "
-    "replaced only under `overwrite` and the other arm raises; (R16.3) slot identity is set-equality of dims, replacement goes to the enumerated "
-    "index, append iff nothing was replaced; (R16.4) no function other than __init__/set_metrics stores into `_metrics` (all functions scanned); "
+    "the last variable of a list) is reported; (R16.2) no store can precede the overwrite=False refusal within one iteration; (R16.3) set_metrics is "
+    "interpreted abstractly on modelled registries for 56 (registry, batch, overwrite) cases and leaves, on returning and refusing paths, exactly the "
+    "registry that registering the variables one at a time in order leaves (slot = same set of dims; replace in place under overwrite, refuse otherwise, "
+    "append when free); (R16.4) no function other than __init__/set_metrics stores into `_metrics` (all functions scanned); "
     "(R16.5) the constructor registers every entry through set_metrics. This decides the structure that makes batching irrelevant for every call "
     "history; it does not execute histories, so equivalence of final registries is claimed only through these necessary conditions."
 )
